@@ -12,8 +12,8 @@
       - the partial operations of format_state (234-396), push_line (399-425),
         WideElement::expand (443-483), PaddedStringDisplay::fmt (734-769)  [render_outcome]
     and from /repo/src/draw_target.rs the partial operations of one frame:
-      - LineType::wrapped_height (686-696), visual_line_count (672-676),
-        DrawState::draw_to_term (514-610)                                  [frame_outcome]
+      - LineType::wrapped_height (703-713), visual_line_count (689-693),
+        DrawState::draw_to_term (514-627)   (line numbers of /repo at commit 951c29f)                                  [frame_outcome]
 
     A "site" is a program point that can panic: an assertion, an `unwrap`, an index, a
     division / remainder, or a `+`/`-` on usize that panics when overflow checks are on
@@ -53,9 +53,9 @@ Definition SITE_BAR_CUR : N := 707.        (* self.chars[cur] *)
 Definition SITE_PRECISION : N := 320.      (* "{:.1$}": a precision argument above u16::MAX panics in core::fmt *)
 Definition SITE_PAD_LEFT : N := 742.       (* self.str.len() - excess *)
 Definition SITE_PAD_CENTER : N := 746.     (* self.str.len() - excess.saturating_sub(excess / 2) *)
-Definition SITE_REAL_ADD : N := 10577.     (* draw_target.rs:577 real_height += line_height *)
-Definition SITE_REPEAT : N := 10597.       (* draw_target.rs:597 " ".repeat(n): capacity overflow above isize::MAX *)
-Definition SITE_COUNT_ADD : N := 10607.    (* draw_target.rs:607 real_height + shift *)
+Definition SITE_REAL_ADD : N := 10590.     (* draw_target.rs:590 real_height += line_height *)
+Definition SITE_REPEAT : N := 10610.       (* draw_target.rs:610 " ".repeat(n): capacity overflow above isize::MAX *)
+Definition SITE_COUNT_ADD : N := 10624.    (* draw_target.rs:624 real_height + shift *)
 
 Definition USIZE_MAX : N := U64MAX.
 Definition ISIZE_MAX : N := 9223372036854775807.
@@ -362,39 +362,40 @@ Definition render_outcome (st : style) (sn : snapshot) (tw : N) (O : oracles) : 
 Definition sat_addu (a b : N) : N := N.min USIZE_MAX (a + b).
 Definition sat_mulu (a b : N) : N := N.min USIZE_MAX (a * b).
 
-(** LineType::wrapped_height (draw_target.rs:686-696): ceil(cols as f64 / width as f64) as usize,
+(** LineType::wrapped_height (draw_target.rs:703-713): ceil(cols as f64 / width as f64) as usize,
     at least 1.  width = 0: x/0 = +inf -> usize::MAX, 0/0 = NaN -> 0 -> 1.  For width > 0 the
     f64 ceiling is taken to be the exact one (docs/C14.md, assumption A3). *)
 Definition wrapped_height (cols tw : N) : N :=
   if tw =? 0 then (if cols =? 0 then 1 else USIZE_MAX)
   else N.max 1 ((cols + tw - 1) / tw).
 
-(* visual_line_count (draw_target.rs:672-676) *)
+(* visual_line_count (draw_target.rs:689-693) *)
 Definition visual_line_count (ls : list N) (tw : N) : N :=
   fold_left (fun acc c => sat_addu acc (wrapped_height c tw)) ls 0.
 
-(* the paint loop (draw_target.rs:567-599) *)
+(* the paint loop (draw_target.rs:573-612); every line is a Bar line, so `padded` (:558) is true
+   from the start and the padding rows are written before the loop (:562-566) *)
 Fixpoint paint (ls : list N) (idx total tw th real : N) : outcome N :=
   match ls with
   | [] => Ok real
   | c :: r =>
-      let h := wrapped_height c tw in                                     (* :568 *)
-      if th <? sat_addu real h then Ok real                               (* :573 break *)
-      else if USIZE_MAX <? real + h then Panic SITE_REAL_ADD              (* :577 *)
-      else if ((idx + 1 =? total) || ((idx =? 0) && (c =? 0)))           (* :590 *)
-              && (ISIZE_MAX <? sat_mulu h tw - c)                         (* :593-597 *)
+      let h := wrapped_height c tw in                                     (* :574 *)
+      if th <? sat_addu real h then Ok real                               (* :579 break *)
+      else if USIZE_MAX <? real + h then Panic SITE_REAL_ADD              (* :590 *)
+      else if ((idx + 1 =? total) || ((idx =? 0) && (c =? 0)))           (* :603 *)
+              && (ISIZE_MAX <? sat_mulu h tw - c)                         (* :606-610 *)
            then Panic SITE_REPEAT
       else paint r (idx + 1) total tw th (real + h)
   end.
 
-(** DrawState::draw_to_term (draw_target.rs:514-610); [n] = *bar_count before the call,
+(** DrawState::draw_to_term (draw_target.rs:514-627); [n] = *bar_count before the call,
     [bottom] = the alignment is MultiProgressAlignment::Bottom.  Returns the new *bar_count. *)
 Definition frame_outcome (ls : list N) (tw th n : N) (bottom : bool) : outcome N :=
   let full := visual_line_count ls tw in                                  (* :547 *)
-  let shift := if bottom && (full <? n) then n - full else 0 in           (* :549-560; :553 guarded by :552 *)
+  let shift := if bottom && (full <? n) then n - full else 0 in           (* :549-554; the subtraction is guarded by its own match arm *)
   match paint ls 0 (nlen ls) tw th 0 with
   | Panic s => Panic s
-  | Ok real => if USIZE_MAX <? real + shift then Panic SITE_COUNT_ADD     (* :607 *)
+  | Ok real => if USIZE_MAX <? real + shift then Panic SITE_COUNT_ADD     (* :624 *)
                else Ok (real + shift)
   end.
 
